@@ -128,19 +128,54 @@ def directed_histories(rng, thorough):
                 hs_e.append(h)
     # (f) transactions through the real SPOE message handler, retry sequences (transaction id != sequence id) across updates
     hs_f = []
+    shapes = ["", "G:A", "E:B", "X:C"]          # empty configuration, global only, endpoints only, both (all plugins disabled)
     for op in ops:
         for gapd in (0, 5, 29):
-            h = [{"ev": "reset", "label": "A", "handler": True}, {"ev": "hreq", "id": "t1", "seq": "t1"}, {"ev": "hres", "id": "t1", "seq": "t1", "status": 500}]
-            if gapd:
-                h.append({"ev": "adv", "d": gapd})
-            h += [upd(op, "B"), {"ev": "hreq", "id": "t2", "seq": "t1"}, {"ev": "hres", "id": "t2", "seq": "t1", "status": 500},
-                  {"ev": "hreq", "id": "t3", "seq": "t1"}, upd("apply", "C"), {"ev": "hres", "id": "t3", "seq": "t1", "status": 200},
-                  {"ev": "hreq", "id": "t4", "seq": "t4"}, {"ev": "adv", "d": 30}, {"ev": "hres", "id": "t4", "seq": "t4", "status": 200},
-                  {"ev": "adv", "d": 6}, {"ev": "hreq", "id": "t5", "seq": "t1"}, {"ev": "hres", "id": "t5", "seq": "t1", "status": 200}]
-            hs_f.append(h)
+            for l0, l1, l2 in (("G:A", "G:B", "X:C"), ("", "G:B", ""), ("E:B", "", "G:A"), ("", "E:B", "X:C")):
+                h = [{"ev": "reset", "label": l0, "handler": True}, {"ev": "hreq", "id": "t1", "seq": "t1"}, {"ev": "hres", "id": "t1", "seq": "t1", "status": 500},
+                     {"ev": "hreq", "id": "t6", "seq": "t6"}]
+                if gapd:
+                    h.append({"ev": "adv", "d": gapd})
+                h += [upd(op, l1), {"ev": "hres", "id": "t6", "seq": "t6", "status": 200},
+                      {"ev": "hreq", "id": "t2", "seq": "t1"}, {"ev": "hres", "id": "t2", "seq": "t1", "status": 500},
+                      {"ev": "hreq", "id": "t3", "seq": "t1"}, upd("apply", l2), {"ev": "hres", "id": "t3", "seq": "t1", "status": 200},
+                      {"ev": "hreq", "id": "t4", "seq": "t4"}, {"ev": "adv", "d": 30}, {"ev": "hres", "id": "t4", "seq": "t4", "status": 200},
+                      {"ev": "adv", "d": 6}, {"ev": "hreq", "id": "t5", "seq": "t1"}, {"ev": "hres", "id": "t5", "seq": "t1", "status": 200}]
+                hs_f.append(h)
     if thorough:
         return hs + hs_a + hs_d + hs_e + hs_f
-    return hs + rng.sample(hs_a, 20) + rng.sample(hs_d, 8) + rng.sample(hs_e, 25) + rng.sample(hs_f, 6)
+    return hs + rng.sample(hs_a, 20) + rng.sample(hs_d, 8) + rng.sample(hs_e, 20) + rng.sample(hs_f, 12)
+
+
+def rand_handler_history(rng, thorough):
+    """transactions through the SPOE message handler: requests and (later) responses of transactions inside retry sequences,
+    updates over the configuration shapes (empty, global only, endpoints only, both), time"""
+    shapes = ["", "", "G:A", "G:D", "E:B", "X:C"]
+    h = [{"ev": "reset", "label": rng.choice(shapes), "handler": True}]
+    pool = list(TXNS)
+    rng.shuffle(pool)
+    open_, seq_of, nxt = [], {}, 0
+    for _ in range(rng.randint(10, 24 if not thorough else 36)):
+        x = rng.random()
+        if x < 0.25:
+            op = rng.choice(["apply", "apply", "reload", "revdf", "revll"])
+            e = {"ev": "update", "op": op}
+            if op in ("apply", "reload"):
+                e["label"] = rng.choice(shapes)
+            h.append(e)
+        elif x < 0.40:
+            h.append({"ev": "adv", "d": rng.choice([1, 4, 5, 24, 29, 30, 31, 36])})
+        elif open_ and x < 0.72:
+            t = open_.pop(rng.randrange(len(open_)))
+            h.append({"ev": "hres", "id": t, "seq": seq_of[t], "status": rng.choice([200, 500, 503])})
+        elif nxt < len(pool):
+            t = pool[nxt]; nxt += 1
+            seq_of[t] = rng.choice(list(seq_of.values())) if seq_of and rng.random() < 0.5 else t
+            open_.append(t)
+            h.append({"ev": "hreq", "id": t, "seq": seq_of[t]})
+    for t in open_:
+        h.append({"ev": "hres", "id": t, "seq": seq_of[t], "status": 200})
+    return h
 
 
 def gapify(rng, h):
@@ -332,6 +367,8 @@ def run(ctx):
     # (3) code -> spec: random scripts (plain, and with held calls / refused admin calls), directed gap and failure schedules
     nscripts, nh = (3, 30) if not T else (12, 120)
     def pick(j):
+        if j % 5 == 4:
+            return rand_handler_history(ctx.rng, T)
         h = rand_history(ctx.rng, T)
         if j % 3 == 0:
             h = gapify(ctx.rng, h)
